@@ -9,7 +9,7 @@ from .model import AnalysisError, ClassInfo
 from .values import *    # noqa
 from .strtree import *   # noqa
 from .symeval import Env, RaiseSignal, is_strlike, neg_cond, make_phi, seq_concat
-from .symeval_ops import BoundBuiltin, DerivV, NTClassV, NTV, ExcV, ChunkListV, BoundTupleOf, PyObjV
+from .symeval_ops import BoundBuiltin, DerivV, NTClassV, NTV, ExcV, ChunkListV, BoundTupleOf, PyObjV, StaticV, ClassMethodV, PartialV, AttrGetter
 
 
 _MATH1 = {"exp": ep.exp_, "log": ep.log_, "sqrt": ep.sqrt_}
@@ -616,13 +616,20 @@ class ExtMixin(object):
         outer = self.as_iterable(args[0], node)
         if not isinstance(outer, ListV):
             self.err(node, "chain.from_iterable over a symbolic sequence")
-        out = []
-        for sub in outer.items:
-            subl = self.as_iterable(sub, node)
-            if not isinstance(subl, ListV):
-                self.err(node, "chain.from_iterable over a symbolic inner sequence")
-            out.extend(subl.items)
-        return ListV(out, "list")
+        subs = [self.as_iterable(sub, node) for sub in outer.items]
+        if all(isinstance(q, ListV) and not getattr(q, "tail", None) for q in subs):
+            out = []
+            for q in subs:
+                out.extend(q.items)
+            return ListV(out, "list")
+        acc = ListV([], "list")
+        for q in subs:
+            if isinstance(q, ListV) and getattr(q, "tail", None):
+                q = self.as_iterable(q, node)
+            if not isinstance(q, (ListV, SeqV)):
+                self.err(node, "chain over %r" % (q,))
+            acc = seq_concat(acc, q)
+        return acc
 
     def x_itertools_chain(self, args, kwargs, node, env):
         return self.x_itertools_chain_from_iterable([ListV(list(args), "list")], kwargs, node, env)
@@ -641,6 +648,34 @@ class ExtMixin(object):
         if not isinstance(seq, ListV):
             self.err(node, "combinations of a symbolic sequence")
         return ListV([ListV(list(p), "tuple") for p in _it.combinations(seq.items, int(args[1].const()))], "list")
+
+    def x_staticmethod(self, args, kwargs, node, env):
+        return StaticV(args[0])
+
+    def x_classmethod(self, args, kwargs, node, env):
+        return ClassMethodV(args[0])
+
+    def x_functools_partial(self, args, kwargs, node, env):
+        if not args:
+            self.err(node, "functools.partial without a callable")
+        return PyObjV(PartialV(args[0], args[1:], kwargs))
+
+    def x_operator_attrgetter(self, args, kwargs, node, env):
+        if len(args) != 1 or not (isinstance(args[0], Const) and isinstance(args[0].v, str)):
+            self.err(node, "operator.attrgetter with several / non-constant names")
+        return PyObjV(AttrGetter("attr", args[0].v))
+
+    def x_operator_itemgetter(self, args, kwargs, node, env):
+        if len(args) != 1:
+            self.err(node, "operator.itemgetter with several items")
+        return PyObjV(AttrGetter("item", args[0]))
+
+    def x_itertools_product(self, args, kwargs, node, env):
+        import itertools as _it
+        seqs = [self.as_iterable(a, node) for a in args]
+        if not all(isinstance(q, ListV) and not getattr(q, "tail", None) for q in seqs):
+            self.err(node, "itertools.product of symbolic sequences (outside a for statement)")
+        return ListV([ListV(list(p), "tuple") for p in _it.product(*[q.items for q in seqs])], "list")
 
     def x_functools_reduce(self, args, kwargs, node, env):
         fn, seq = args[0], self.as_iterable(args[1], node)
